@@ -729,7 +729,7 @@ example :
     watchers BEFORE the resolver (so calls on a closed aggregate do occur: `C15_aggregate_nothing_after_close`). -/
 theorem C15_facts_aggregate :
     GB.Generated.aggregateWiring =
-      ["UpdateDesc:range-watchers:w.UpdateDesc", "ReportError:range-watchers:w.ReportError", "Close:range-watchers:w.Close",
+      ["UpdateDesc:range-watchers:hook:aggregate.update.member,w.UpdateDesc", "ReportError:range-watchers:w.ReportError", "Close:range-watchers:w.Close",
        "Add:members:patternWatcher,serviceWatcher", "Add:Build(name,watcher)",
        "Remove:watcher.Close,resolver.Close,poolController.Close"] := by
   decide
